@@ -545,7 +545,7 @@ CHECKS = {
     },
     "C47": {
         "level": "fault_enumeration",
-        "rule": ("plans: the product of credentials (none, password, user+password, dynamic through AuthCredentialsFn), client name, database, tracking options "
+        "rule": ("plans: the product of credentials (none, password, user+password, dynamic through AuthCredentialsFn), client name, database, availability-zone discovery (off, from HELLO, from an extra INFO step), tracking options "
                  "(OPTIN, OPTIN+NOLOOP, OPTOUT, BCAST, BCAST+PREFIX, cache disabled), NO-TOUCH, NO-EVICT, library info (default, custom, disabled), AlwaysRESP2 and "
                  "servers without HELLO, on a model that enforces authentication; 2-4 tasks open the pipelined wire(s) and pooled connections; on the first one or two "
                  "connections one setup command (enumerated part: each of the setup steps 0..15; random part: a seeded one) is answered with an error or the connection is "
